@@ -515,6 +515,11 @@ def rge_shared_worker(sub, item):
         run_compute_local(sy, pto, True, True, nf_first, kt, manager=m)
         tensors, partons, beta = run_compute_local(sy, pto, True, True, nf, kt, manager=m)
         sub.add(rge_obligations(sy, pto, nf, kt, tensors, name))
+        # ... and back to the first flavour number, whose operators are already in the cache (a run walks
+        # every observable's points by increasing Q2, so a later observable returns to a smaller nf):
+        # matrices, projectors and beta coefficients are again those of THAT number
+        back, _, _ = run_compute_local(sy, pto, True, True, nf_first, kt, manager=m)
+        sub.add(rge_obligations(sy, pto, nf_first, kt, back, name.replace("/shared-manager/", "/shared-manager(returning to the first nf)/")))
     except Exception as e:  # noqa
         import traceback
 
